@@ -8,7 +8,7 @@ byte `b` to `Char.ofNat b`), which is exact for the three regular expressions be
 Mirrored code (`/repo/go/pkg`):
 
 * `panos/device.go getAPIKey`   : `passRE = (password=).*?(&|$)` → `${1}xxx$2`  (`maskPass`)
-                                   `keyRE  = (?s)<key>.*</key>`   → `<key>xxx</key>` (`maskKey`)
+                                   `keyRE  = (?s)<[ns:]key[ attrs]>(.*</[ns:]key>|.*$)` → `<key>xxx</key>` (`maskKey`)
 * `panos/device.go`             : request URLs are logged with the prefix `…/api/?key=xxx&` (`setAPIKey`; the
                                    regexp `[?]key=.*?&` was given up with fix c4a38c5)
 * `errlog/msg.go DoLog`         : `url.QueryUnescape` iff the string starts with `http` or `action=`,
@@ -80,32 +80,90 @@ def maskLazy (lit : Str) (allowEnd : Bool) (l : Str) : Str := replaceAll (lazySt
 
 /-- `passRE.ReplaceAllString(s, "${1}xxx$2")`. -/
 def maskPass (l : Str) : Str := maskLazy litPass true l
-/-! ## greedy matcher `(?s)<key>.*</key>` -/
+/-! ## greedy matcher for the key element
 
-/-- What follows the LAST occurrence of `</key>` (`none`: no occurrence). -/
+`keyRE = (?s)<(?:[^\s<>/:]+:)?key(?:\s[^>]*)?>(?:.*</(?:[^\s<>/:]+:)?key\s*>|.*$)` (fix for F-C17e):
+an opening tag of element `key` in every spelling `encoding/xml` accepts — namespace prefix,
+white space, attributes —, then everything up to the LAST closing tag of `key`, or, if there is none
+(truncated answer), up to the end of the text.  No byte of a tag before its `>` is a `>`, so a tag is
+the text up to the first `>` (`splitAtGt`) if that text has the right shape (`validOpen/validClose`). -/
+
+def notNl (c : Char) : Bool := c != '\n'
+
+def isWsRe (c : Char) : Bool := c == ' ' || c == '\t' || c == '\n' || c == '\r' || c == '\x0c'
+def nameCh (c : Char) : Bool := !(isWsRe c || c == '<' || c == '>' || c == '/' || c == ':')
+
+def splitAtGt : Str → Option (Str × Str)
+  | [] => none
+  | c :: r =>
+    if c = '>' then some ([], r)
+    else match splitAtGt r with
+      | some (t, x) => some (c :: t, x)
+      | none => none
+
+def afterNs (r : Str) : Option Str :=
+  match r.dropWhile nameCh with
+  | ':' :: r'' => if (r.takeWhile nameCh).isEmpty then none else some r''
+  | _ => none
+
+def keyOpenTail : Str → Bool
+  | 'k' :: 'e' :: 'y' :: r => match r with | [] => true | c :: _ => isWsRe c
+  | _ => false
+
+def keyCloseTail : Str → Bool
+  | 'k' :: 'e' :: 'y' :: r => r.all isWsRe
+  | _ => false
+
+def validOpen : Str → Bool
+  | '<' :: r => (match afterNs r with | some x => keyOpenTail x | none => false) || keyOpenTail r
+  | _ => false
+
+def validClose : Str → Bool
+  | '<' :: '/' :: r => (match afterNs r with | some x => keyCloseTail x | none => false) || keyCloseTail r
+  | _ => false
+
+def tag? (valid : Str → Bool) (l : Str) : Option Str :=
+  match splitAtGt l with
+  | some (t, r) => if valid t then some r else none
+  | none => none
+
+/-- What follows the LAST closing tag of `key` (`none`: no occurrence). -/
 def lastClose : Str → Option Str
   | [] => none
   | c :: cs =>
     match lastClose cs with
     | some r => some r
-    | none => stripPrefix? litClose (c :: cs)
+    | none => tag? validClose (c :: cs)
 
-def notNl (c : Char) : Bool := c != '\n'
-
-/-- One match of `(?s)<key>.*</key>`: `.` matches every byte (flag `s`, fix bb66815), so the greedy `.*`
-runs to the end of the text and backtracks to the last `</key>`. -/
+/-- One match of `keyRE`: `.` matches every byte (flag `s`), the greedy `.*` runs to the end of the text and
+backtracks to the last closing tag; without one the second alternative `.*$` takes the rest. -/
 def keyStep (l : Str) : Option (Str × Str) :=
-  match stripPrefix? litOpen l with
-  | some body =>
-    match lastClose body with
-    | some after => some (litOpen ++ xxx ++ litClose, after)
-    | none => none
+  match tag? validOpen l with
+  | some body => some (litOpen ++ xxx ++ litClose, (lastClose body).getD [])
   | none => none
 
 /-- `keyRE.ReplaceAllString(s, "<key>xxx</key>")`. -/
 def maskKey (l : Str) : Str := replaceAll keyStep l
 
 /-! ## the two matchers as they were before fixes c4a38c5 and bb66815 (historic, for the counterexamples) -/
+
+/-- `(?s)<key>.*</key>` as it was before the fix for F-C17e: only the literal tags. -/
+def lastCloseLit : Str → Option Str
+  | [] => none
+  | c :: cs =>
+    match lastCloseLit cs with
+    | some r => some r
+    | none => stripPrefix? litClose (c :: cs)
+
+def keyStepLit (l : Str) : Option (Str × Str) :=
+  match stripPrefix? litOpen l with
+  | some body =>
+    match lastCloseLit body with
+    | some after => some (litOpen ++ xxx ++ litClose, after)
+    | none => none
+  | none => none
+
+def maskKeyLit (l : Str) : Str := replaceAll keyStepLit l
 
 /-- `apiRE = [?]key=.*?&` → `?key=xxx&`, applied to the whole request URL (given up with c4a38c5). -/
 def maskApiOld (l : Str) : Str := maskLazy ['?', 'k', 'e', 'y', '='] false l
@@ -114,7 +172,7 @@ def maskApiOld (l : Str) : Str := maskLazy ['?', 'k', 'e', 'y', '='] false l
 def keyStepOld (l : Str) : Option (Str × Str) :=
   match stripPrefix? litOpen l with
   | some body =>
-    match lastClose (body.takeWhile notNl) with
+    match lastCloseLit (body.takeWhile notNl) with
     | some after => some (litOpen ++ xxx ++ litClose, after ++ body.dropWhile notNl)
     | none => none
   | none => none
